@@ -132,7 +132,12 @@ func structFieldsDeep(t types.Type) []*types.Var {
 
 func c08(c *Ctx) {
 	p, r := c.K1(), c.R
-	r.Expl = "Structural clauses behind 'variable mocks restore the pre-mock value': the slot Cancel writes back is captured first-write-wins (guard false once captured), captured from the target before the target is overwritten, never from the new value; Cancel writes back only if captured; every target write of a VarMock goes through the capturing function. Memory-model visibility to concurrent readers and symbol address correctness (C10) are not decided."
+	// R5: Reset reaches every cached mocker's Cancel unconditionally (C02.R5): a variable mock that reports itself
+	// cancelled but was set again afterwards must still be restored
+	if !c.importing {
+		importSibling(c, "C02", "C08.R5", func(rule string) bool { return rule == "C02.R5" })
+	}
+	r.Expl = "Structural clauses behind 'variable mocks restore the pre-mock value': the slot Cancel writes back is captured first-write-wins (guard false once captured), captured from the target before the target is overwritten, never from the new value; Cancel writes back only if captured; every target write of a VarMock goes through the capturing function. Reset cancels every cached mocker unconditionally (C02.R5); the zero value written back for a variable that held the nil interface is the zero value of the variable's own type. Memory-model visibility to concurrent readers and symbol address correctness (C10) are not decided."
 	r.RuleText = "one obligation per (rule, store / call site / method); all name concrete SSA constructs"
 	r.Floor("C08.R1", 1)
 	r.Floor("C08.R2", 1)
@@ -227,6 +232,21 @@ func c08(c *Ctx) {
 			}
 			slots[slot], targets[tgt] = true, true
 			r.OK("C08.R2", "write-back operands in "+shortName(sfn), p.Pos(posOf(s)), "writes "+slot.Name()+" back to "+tgt.Name())
+			// where the written value can be a substitute zero value (the variable held the nil interface), it is the zero
+			// value of the type of the very thing that is set
+			kz := NewKeyer(sfn)
+			for _, a := range origins(args[1]) {
+				zc, ok := a.V.(*ssa.Call)
+				if !ok || calleeName(zc.Common()) != "reflect.Zero" {
+					continue
+				}
+				okT := false
+				if tc, ok := resolveLocal(zc.Call.Args[0]).(*ssa.Call); ok && calleeName(tc.Common()) == "(reflect.Value).Type" {
+					okT = sameAccessPath(kz, tc.Call.Args[0], args[0], 0)
+				}
+				r.Check(okT, "C08.R2", "substitute zero value in "+shortName(sfn)+" has the variable's type", p.Pos(posOf(zc)), "reflect.Zero(X.Type()) for the X that is set",
+					"the zero value written back for a variable that held nil is not of the type of the variable being set (e.g. of the pointer to it): Cancel/Reset panics or leaves a non-nil value in a variable that was nil before the mock")
+			}
 			// restore only if captured: guarded by a bool flag (true) or slot != nil
 			guarded := false
 			for _, gb := range guardBlocks[s] {
@@ -376,4 +396,44 @@ func c08(c *Ctx) {
 			r.Check(okR, "C08.R3", shortName(fn)+" reaches capture", p.Pos(fn.Pos()), "routes through the capturing function", "Set/Apply never reaches the function that remembers the pre-mock value")
 		}
 	}
+}
+
+// sameAccessPath: a and b denote the same thing by construction — the same SSA value, loads with the same structural key, or
+// the same chain of reflect.Value accessors (Elem, Field, Index with equal constant) applied to the same thing.
+func sameAccessPath(k *Keyer, a, b ssa.Value, depth int) bool {
+	a, b = resolveLocal(a), resolveLocal(b)
+	if a == b {
+		return true
+	}
+	if depth > 6 {
+		return false
+	}
+	ca, ok1 := a.(*ssa.Call)
+	cb, ok2 := b.(*ssa.Call)
+	if ok1 && ok2 {
+		na, nb := calleeName(ca.Common()), calleeName(cb.Common())
+		if na != nb || len(ca.Call.Args) != len(cb.Call.Args) {
+			return false
+		}
+		switch na {
+		case "(reflect.Value).Elem", "(reflect.Value).Field", "(reflect.Value).Index", "reflect.Indirect", "reflect.ValueOf":
+		default:
+			return false
+		}
+		for i := range ca.Call.Args {
+			if !sameAccessPath(k, ca.Call.Args[i], cb.Call.Args[i], depth+1) {
+				return false
+			}
+		}
+		return true
+	}
+	if ok1 != ok2 {
+		return false
+	}
+	if x, ok := a.(*ssa.Const); ok {
+		y, ok2 := b.(*ssa.Const)
+		return ok2 && x.Value != nil && y.Value != nil && x.Value.ExactString() == y.Value.ExactString()
+	}
+	ka, kb := k.Key(a), k.Key(b)
+	return ka == kb && !strings.HasPrefix(ka, "#") && !strings.HasPrefix(ka, "$")
 }
